@@ -149,8 +149,8 @@ SHAPES = {
     'WhileLoop': [['While', 'E', 'B']],
     'FieldAccess': [['T', 'Dot', 'Ident']],
     'ForLoop': [['For', 'P', 'In', 'E', 'B']],
-    'ModuleImport': [['Import', 'E'], ['Import', 'E', 'As', 'Ident'], ['Import', 'E', 'Colon', 'Star'], ['Import', 'E', 'As', 'Ident', 'Colon', 'Star'],
-                     ['Import', 'E', 'Colon', 'ImportItems'], ['Import', 'E', 'As', 'Ident', 'Colon', 'ImportItems']],
+    # (the item list after the colon is printed by the list stylist: not a flow site)
+    'ModuleImport': [['Import', 'E'], ['Import', 'E', 'As', 'Ident'], ['Import', 'E', 'Colon', 'Star'], ['Import', 'E', 'As', 'Ident', 'Colon', 'Star']],
     'ImportItemPath': [['Ident'], ['Ident', 'Dot', 'Ident']],
     'RenamedImportItem': [['ImportItemPath', 'As', 'Ident']],
     'Keyed': [['E', 'Colon', 'E']],
@@ -164,5 +164,7 @@ UN_OPS = ['Plus', 'Minus', 'Not']
 # T: what a field access / call can be applied to (code_primary and the postfix forms; parser.rs code_expr_prec)
 POSTFIX_TARGET = ['Ident', 'None', 'Auto', 'Bool', 'Int', 'Float', 'Numeric', 'Str', 'CodeBlock', 'ContentBlock', 'Parenthesized', 'Array', 'Dict', 'FieldAccess',
                   'FuncCall', 'Raw', 'Equation', 'Label']
-SLOTS = {'T': POSTFIX_TARGET, 'E': CODE_EXPR, 'P': PATTERN, 'B': ['CodeBlock', 'ContentBlock'], 'OP': [k for k in BIN_OPS if k != 'Not'], 'UOP': UN_OPS}
+# one operator per spelling class (symbol / comparison / assignment / word): the producers treat every operator token alike
+BIN_OP_REPS = ['Plus', 'Slash', 'Star', 'Lt', 'EqEq', 'Eq', 'PlusEq', 'And', 'In']
+SLOTS = {'T': POSTFIX_TARGET, 'E': CODE_EXPR, 'P': PATTERN, 'B': ['CodeBlock', 'ContentBlock'], 'OP': BIN_OP_REPS, 'UOP': UN_OPS}
 SLOT_DEFAULT = {'T': 'Ident', 'E': 'Ident', 'P': 'Ident', 'B': 'CodeBlock', 'OP': 'Plus', 'UOP': 'Minus'}
